@@ -45,7 +45,7 @@ def outline_own_effective(feature, rule, outline):
 
 def step_status_for(outcome, wip):
     return {
-        "pass": "passed", "fail": "failed", "raise": "error", "interrupt": "error",
+        "pass": "passed", "nest": "passed", "fail": "failed", "raise": "error", "interrupt": "error",
         "convert": "error", "undefined": "undefined", "skip": "skipped",
         "pending": "pending_warn" if wip else "pending",
     }[outcome]
@@ -79,6 +79,7 @@ def simulate(program, deselected=None):
     ref.hook_owner = []         # parallel to ref.hooks: (kind, name) of the element a hook call belongs to
     ref.cleanup_error_elems = []
     ref.cleanup_expect = []     # cleanup ids in expected execution order
+    ref.cleanup_pos = []        # (cleanup id, number of hook calls before it)
     ref.open_containers = set()
     ref.untouched = []      # instance names never reached (stop / abort)
     ref.suppressed = set()  # instance names whose body was suppressed by a before-hook failure
@@ -115,6 +116,7 @@ def simulate(program, deselected=None):
         failed = False
         for cid, raises in reversed(layer.cleanups):
             ref.cleanup_expect.append(cid)
+            ref.cleanup_pos.append((cid, len(ref.hooks)))
             if raises:
                 failed = True
         if failed:
@@ -190,6 +192,17 @@ def simulate(program, deselected=None):
                             ref.calls.append((name, s["uid"]))
                             if s.get("cl"):
                                 layer.cleanups.append(("s%s" % s["uid"], s["cl"] == "raise"))
+                        if o == "nest":
+                            # context.execute_steps(): sub-steps run with their step hooks until
+                            # the first one that does not pass (the caller catches the error)
+                            for sub in s["sub"]:
+                                sub_layer = Layer("substep", (name, sub["uid"]))
+                                hook("before_step", sub["uid"], sub_layer)
+                                if not sub_layer.hook_failed:
+                                    ref.calls.append((name, sub["uid"]))
+                                hook("after_step", sub["uid"], sub_layer)
+                                if sub_layer.hook_failed or sub["o"] != "pass":
+                                    break
                         status = step_status_for(o, wip)
                     else:
                         status = "hook_error"
